@@ -51,6 +51,9 @@ SUBJECTS = {
     # the same (code, noise, decoder, rate) twice in one batch (a repeated rate in a
     # specification): two simulations with identical inputs, each with its own trials
     'matching-twice': ('MatchingDecoder', {}, lambda: Toric2DCode(3, 3), None, {}),
+    # two simulations that differ in the seventh decimal of one noise parameter only
+    # (infinite bias next to a very high finite bias): two simulations, two records
+    'matching-near': ('MatchingDecoder', {}, lambda: Toric2DCode(3, 3), None, {}),
 }
 
 
@@ -86,7 +89,10 @@ def build(subject, out, save_frequency, compressed):
         code.deform(cdef)
     em = PauliErrorModel(0.2, 0.3, 0.5, **nkw)
     batch = BatchSimulation(out, save_frequency=save_frequency, update_frequency=1000, verbose=False)
-    for j, p in enumerate((0.15, 0.3) if not subject.endswith('-twice') else (0.3, 0.3)):
+    near = subject.endswith('-near')
+    for j, p in enumerate((0.15, 0.3) if not (subject.endswith('-twice') or near) else (0.3, 0.3)):
+        if near:
+            em = PauliErrorModel(0.0, 0.0, 1.0) if j == 0 else PauliErrorModel(1e-7, 0.0, 1.0 - 1e-7)
         dec = getattr(PD, dname)(code, em, p, **dkw)
         batch.append(DirectSimulation(code, em, dec, p, rng=np.random.default_rng(int(p * 100) + j),
                                       verbose=False, compress=compressed))
